@@ -28,6 +28,8 @@ type State struct {
 	Sup    *Term // (Array Str Int)
 	Acc    *Term // (Array Bytes Bool)
 	Meta   *Term // (Array Str Bool) denom metadata present
+	MetaB  *Term // (Array Str Str) metadata base denom
+	MetaD  *Term // (Array Str Str) metadata display denom
 	Ghost  map[string]Value
 	Perm   map[string]*Term
 	Empty  bool // a fresh chain: every store closed and empty, bank ledgers zero
@@ -49,6 +51,7 @@ var (
 	supSort  = Sort{K: SUn, Name: "(Array Str Int)"}
 	accSort  = Sort{K: SUn, Name: "(Array Bytes Bool)"}
 	metaSort = Sort{K: SUn, Name: "(Array Str Bool)"}
+	strMapSort = Sort{K: SUn, Name: "(Array Str Str)"}
 	rowSort  = supSort
 )
 
@@ -57,7 +60,7 @@ func newState() *State {
 }
 
 func (s *State) clone() *State {
-	n := &State{Stores: map[string]*Store{}, Bal: s.Bal, Sup: s.Sup, Acc: s.Acc, Meta: s.Meta, Ghost: map[string]Value{}, Perm: map[string]*Term{}, Empty: s.Empty, Init: s.Init, Prefix: s.Prefix}
+	n := &State{Stores: map[string]*Store{}, Bal: s.Bal, Sup: s.Sup, Acc: s.Acc, Meta: s.Meta, MetaB: s.MetaB, MetaD: s.MetaD, Ghost: map[string]Value{}, Perm: map[string]*Term{}, Empty: s.Empty, Init: s.Init, Prefix: s.Prefix}
 	for k, st := range s.Stores {
 		ns := &Store{Name: st.Name, Closed: st.Closed, Inited: st.Inited}
 		for _, en := range st.Entries {
@@ -75,6 +78,7 @@ func (s *State) clone() *State {
 }
 
 func (s *State) assign(o *State) {
+	s.MetaB, s.MetaD = o.MetaB, o.MetaD
 	s.Stores, s.Bal, s.Sup, s.Acc, s.Meta, s.Ghost, s.Perm, s.Empty, s.Init, s.Prefix = o.Stores, o.Bal, o.Sup, o.Acc, o.Meta, o.Ghost, o.Perm, o.Empty, o.Init, o.Prefix
 }
 
